@@ -812,6 +812,19 @@ func (s *Silences) indexSilence(sil *pb.Silence) {
 	}
 }
 
+// reindexSilence moves an already indexed silence to the end of the version
+// index, under a new version, and recompiles its matchers.
+func (s *Silences) reindexSilence(sil *pb.Silence) {
+	for i, sv := range s.vi {
+		if sv.id == sil.Id {
+			s.vi = append(s.vi[:i], s.vi[i+1:]...)
+			break
+		}
+	}
+	delete(s.mi, sil.Id)
+	s.indexSilence(sil)
+}
+
 func (s *Silences) getSilence(id string) (*pb.Silence, bool) {
 	msil, ok := s.st[id]
 	if !ok {
@@ -1323,6 +1336,11 @@ func (s *Silences) Merge(b []byte) error {
 		if merged {
 			if added {
 				s.indexSilence(e.Silence)
+			} else {
+				// The silence changed under an ID that is already indexed, e.g. an
+				// edit that arrives after the silence has expired locally. Give it
+				// a new version so that users of the version index look at it again.
+				s.reindexSilence(e.Silence)
 			}
 			if !cluster.OversizedMessage(b) {
 				// If this is the first we've seen the message and it's
